@@ -345,7 +345,7 @@ Section RequestPath.
         let hs := Http1Read.q_headers q in
         let host_headers := match Http1Read.hm_get Http1Read.host_name hs with Some h => [h] | None => [] end in
         (* descriptor.data.get_from_request(..); moved_host_collection.get_host(&hostname).unwrap() *)
-        match Hosts.choose_host Hosts.V1 c None host_headers with
+        match Hosts.choose_host_uri true Hosts.V1 c None host_headers (Http1Read.q_authority q) with
         | Panic => Panic
         | Err e => Err e
         | Ok Hosts.Refuse409 => Ok P409
@@ -373,8 +373,12 @@ Section RequestPath.
                   | Some o =>
                       negb cors_default_deny ||
                       (Http1Read.hv_to_str_ok o &&
-                       Cors.is_part_of_origin o (Some (if https then s_https else s_http))
-                                              (Some (Http1Read.q_authority q)))
+                       (* a URI without authority (no usable Host value) has no scheme either *)
+                       Cors.is_part_of_origin o (match Http1Read.q_authority q with
+                                                 | Some _ => Some (if https then s_https else s_http)
+                                                 | None => None
+                                                 end)
+                                              (Http1Read.q_authority q))
                   end in
                 let preflight :=
                   cors_default_deny && beq (Http1Read.q_method q) Http1Read.m_options &&
